@@ -120,6 +120,9 @@ func cmdHist(args []string) {
 	for _, u := range hist.Unexercised {
 		wo.Stats.Inc("unexercised_new_method/" + u)
 	}
+	for _, u := range hist.DynamicOps {
+		wo.Stats.Inc("new_method_driven_generically/" + u)
+	}
 	var history []*hist.Trace
 	for i := *from; i < *to; i++ {
 		env.KeepTrace = true
